@@ -44,6 +44,28 @@ def gen_cases(rng, tier):
             elif r < 0.74: ev.append([adv, ["delp", rng.choice(["a:", "b:", "c"])]])
             else: ev.append([adv, ["dtags", rng.choice(["ta", "u", "g:1", "g:2"])]])
         cases.append({"keys": KEYS, "events": ev})
+    # structured stream: tagged write, some removal, re-creation with / without the tag, delete_tags
+    for _ in range(n // 2):
+        k = rng.choice(KEYS)
+        t = rng.choice(TAGS_FOR[k])
+        ev = [[0, [rng.choice(["set", "set", "incr"]), k] + ([rng.choice([1, 5]), rng.choice([0, 4, 1600]), [t], "set"] if True else [])]]
+        if ev[0][1][0] == "incr":
+            ev[0][1] = ["incr", k, rng.choice([0, 4, 1600]), [t]]
+        other = rng.choice([x for x in KEYS if x != k])
+        if rng.random() < 0.5:
+            ev.append([0, ["set", other, 1, rng.choice([0, 1600]), [x for x in TAGS_FOR[other] if rng.random() < 0.5], "set"]])
+        rm = rng.choice(["del", "delp", "expire", "none", "dtags_other"])
+        if rm == "del": ev.append([rng.choice([0, 2]), ["del", k]])
+        elif rm == "delp": ev.append([rng.choice([0, 2]), ["delp", k[:2] if ":" in k else k]])
+        elif rm == "expire": ev.append([8, ["set", other, 5, 0, [], "set"]])
+        elif rm == "dtags_other": ev.append([0, ["dtags", rng.choice([x for x in ["ta", "u", "g:1", "g:2"] if x != t])]])
+        rc = rng.choice(["untagged", "same", "incr_tagged", "incr_untagged", "none"])
+        if rc == "untagged": ev.append([0, ["set", k, 5, rng.choice([0, 1600]), [], "set"]])
+        elif rc == "same": ev.append([0, ["set", k, 5, rng.choice([0, 1600]), [t], "set"]])
+        elif rc == "incr_tagged": ev.append([0, ["incr", k, 0, [t]]])
+        elif rc == "incr_untagged": ev.append([0, ["incr", k, 0, []]])
+        ev.append([rng.choice([0, 2]), ["dtags", t]])
+        cases.append({"keys": KEYS, "events": ev})
     for nmem in ([101, 150] if tier == "quick" else [100, 101, 150, 199, 200, 201, 250]):
         keys = ["a:%d" % i for i in range(nmem)] + ["c"]
         ev = [[0, ["set", k, 1, 0, ["ta"] if k != "c" else [], "set"]] for k in keys] + [[0, ["dtags", "ta"]]]
